@@ -95,6 +95,16 @@ MUTATIONS = [
     ("c13-postinit-before-attrs", "core/objects.py", "            for key, value in values.items():\n                setattr(stub, key, value)\n\n            # Call __post_init__\n            stub.__post_init__()", "            stub.__post_init__()\n            for key, value in values.items():\n                setattr(stub, key, value)", ["C13"]),
     ("c13-pretask-gathered-by-key", "core/objects.py", "                self.pre_tasks[id(pre_task)] = self.stub(pre_task)", "                self.pre_tasks[len(self.pre_tasks)] = self.stub(pre_task)", ["C13"]),
     ("c13-no-store-memo", "core/objects.py", "            o = self.objects.retrieve(id(config))\n\n            if o is None:", "            o = None\n\n            if o is None:", ["C13"]),
+    # C19
+    ("c19-perform-ignored", "cli/jobs.py", "            if perform:\n                cprint(\"Cleaning...\", \"red\")\n                rmtree(p)", "            if True:\n                cprint(\"Cleaning...\", \"red\")\n                rmtree(p)", ["C19"]),
+    ("c19-clean-not-finished", "cli/jobs.py", "        if clean and info.state and info.state.finished():", "        if clean and info.state:", ["C19"]),
+    ("c19-orphans-ignore-bak", "cli/__init__.py", "        paths = chain((path / \"xp\").glob(\"*/jobs\"), (path / \"xp\").glob(\"*/jobs.bak\"))", "        paths = (path / \"xp\").glob(\"*/jobs\")", ["C19"]),
+    ("c19-notin-as-in", "cli/filter.py", "        return value not in self.values", "        return value in self.values", ["C19"]),
+    ("c19-revert-fix12", "cli/filter.py", "varQuotedString = quotedString.copy()", "varQuotedString = quotedString", ["C19"]),
+    ("c19-revert-state-order", "cli/filter.py", "        if (self.path / f\"{self.scriptname}.pid\").is_file():\n            return JobState.RUNNING\n        if (self.path / f\"{self.scriptname}.failed\").is_file():\n            return JobState.ERROR", "        if (self.path / f\"{self.scriptname}.failed\").is_file():\n            return JobState.ERROR\n        if (self.path / f\"{self.scriptname}.pid\").is_file():\n            return JobState.RUNNING", ["C19"]),
+    ("c19-or-as-and", "cli/filter.py", "        return self.y.filter(information) or self.x.filter(information)", "        return self.y.filter(information) and self.x.filter(information)", ["C19"]),
+    ("c19-regex-search", "cli/filter.py", "        return self.regex.match(value)", "        return self.regex.match(value[1:])", ["C19"]),
+    ("c19-filter-ignored-by-clean", "cli/jobs.py", "            if filter:\n                if not _filter(info):\n                    continue", "            if False:\n                pass", ["C19"]),
     # C14
     # (equivalent, not used: Sealer(recurse_task=False) - producing tasks are always sealed by their own submission)
     ("c14-walk-skips-pretasks", "core/objects.py", "            if info.pre_tasks:\n                with self.map(\"__pre_tasks__\"):\n                    self(info.pre_tasks)", "            if False:\n                pass", ["C14", "C13"]),
